@@ -153,13 +153,14 @@ Proof. destruct l; cbn; congruence. Qed.
 Theorem marshal_dom : forall d, dom_ok d -> forall v, val_of_dom d = Some v -> marshal (tree_of_dom d) = Some (encode v).
 Proof.
   induction d as [v0| |t et kt raw kids IH] using dom_ind'; intros Hok v Hv.
-  - cbn in *. inversion Hv; subst. reflexivity.
+  - cbn in Hv. inversion Hv; subst. destruct v; reflexivity.
   - discriminate.
   - pose proof (dom_ok_kids _ _ _ _ _ Hok) as Hkids. destruct Hok as [Hne [Hc [Hkeys _]]].
+    assert (Hnerr : (t =? T_ERROR) = false) by (destruct (container_cases t Hc) as [-> | [-> | [-> | ->]]]; reflexivity).
     cbn [tree_of_dom]. set (next := map (fun kd => (fst kd, tree_of_dom (snd kd))) kids).
     assert (Hnext : next <> []) by (apply map_nonempty; exact Hne).
     assert (Hsz : rewritten_size next = zlen (live_pairs kids)) by (rewrite rewritten_size_live; apply live_count; exact Hkids).
-    cbn [marshal]. destruct next as [|n0 nr] eqn:En; [contradiction|]. rewrite <- En. rewrite <- En in Hsz. clear Hnext.
+    cbn [marshal]. rewrite Hnerr. destruct next as [|n0 nr] eqn:En; [contradiction|]. rewrite <- En. rewrite <- En in Hsz. clear Hnext.
     cbn [val_of_dom] in Hv. fold (live_pairs kids) in Hv.
     apply container_cases in Hc. destruct Hc as [->|[->|[->| ->]]].
     + (* struct *)
